@@ -116,6 +116,37 @@ func encUseDef(f *formRow, ops []operand.Op) string {
 	return strings.Join(parts, " ")
 }
 
+// c02OtherView rewrites the first two operands (two 8-bit general-purpose registers) into the low-byte and
+// high-byte views of one register: variant 0/1 virtual (8L,8H)/(8H,8L), variant 2/3 physical A/B/C/D.
+func c02OtherView(r *rng, ops []operand.Op, variant int) bool {
+	if len(ops) < 2 {
+		return false
+	}
+	a, ok1 := ops[0].(reg.Register)
+	b, ok2 := ops[1].(reg.Register)
+	if !ok1 || !ok2 || a.Kind() != reg.KindGP || b.Kind() != reg.KindGP || a.Size() != 1 || b.Size() != 1 {
+		return false
+	}
+	var lo, hi reg.Register
+	if variant < 2 {
+		col := reg.NewCollection()
+		var v reg.GPVirtual
+		for k := r.intn(6); k >= 0; k-- {
+			v = col.GP64()
+		}
+		lo, hi = v.As8L(), v.As8H()
+	} else {
+		p := []reg.GPPhysical{reg.RAX, reg.RCX, reg.RDX, reg.RBX}[r.intn(4)]
+		lo, hi = p.As8L(), p.As8H()
+	}
+	if variant%2 == 0 {
+		ops[0], ops[1] = lo, hi
+	} else {
+		ops[0], ops[1] = hi, lo
+	}
+	return true
+}
+
 func init() {
 	register("c02", "liveness on generated functions; use/def extraction on sampled forms", func(args []string) error {
 		f := newStdFlags("c02")
@@ -149,7 +180,11 @@ func init() {
 			if fi%stride != start && row.Features&featCancelling == 0 {
 				continue
 			}
-			for rep := 0; rep < reps; rep++ {
+			nrep := reps
+			if row.Features&featCancelling != 0 {
+				nrep = reps + 4
+			}
+			for rep := 0; rep < nrep; rep++ {
 				g := newFgen(r.fork(), db, genCfg{nGP: 4, nVec: 4, nK: 3, physPct: 40})
 				g.labels = []string{"l"}
 				var ops []operand.Op
@@ -162,6 +197,15 @@ func init() {
 				if row.Features&featCancelling != 0 && len(ops) >= 2 && (rep == 0 || r.chance(1, 2)) {
 					ops[1] = ops[0] // the self-cancelling situation
 					stats["cancelling_equal"]++
+				}
+				if rep >= reps {
+					// extra repetitions of cancelling forms: the two operands are DIFFERENT views of ONE register
+					// (low and high byte of the same virtual or physical register): same identity, other bytes —
+					// not self-cancelling, both are reads
+					if !c02OtherView(r, ops, rep-reps) {
+						continue
+					}
+					stats["cancelling_other_view"]++
 				}
 				var sfx []string
 				if len(row.Suffixes) > 0 {
